@@ -2,7 +2,7 @@
    printer's normal form (every model the DSL parser returns is), printing the re-read model gives the same bytes as
    printing the model, and reading those bytes gives the re-read model again. *)
 From Coq Require Import Lia Permutation.
-From Verif Require Import Base.Str Base.Outcome Model.Ast Model.Token Model.Lexer Model.Parser Model.Listener Model.Printer Model.Transform
+From Verif Require Import Spec.DocDomain Base.Str Base.Outcome Model.Ast Model.Token Model.Lexer Model.Parser Model.Listener Model.Printer Model.Transform
   Spec.Sem Spec.Expressible Spec.Normalize Proofs.PrinterExpressible Proofs.Lossless Proofs.SortFacts Proofs.ParserComplete Proofs.LexRender
   Proofs.AcceptedText Proofs.RoundTripChars Proofs.DocLex Proofs.DocParse Proofs.DocChars Proofs.DocSem Proofs.DocPrepass Proofs.DocPrint Proofs.DocRoundTrip.
 
